@@ -87,6 +87,13 @@ func (g jsonGrammar) texts() []string {
 		// escapes and number spellings: "\u0031" IS the key "1"; 1E0, 1.0, 10e-1 are the number 1
 		`{"\u0031":1}`, `{"1":1,"\u0031":2}`, `{"\u0061":1,"a":2}`, `["\u0061"]`, `["a\nb"]`, `[1E0]`, `[1.0]`, `[10e-1]`, `[1e2]`, `{"1":1e0}`, `{"a":1,"b":2,"a":3}`, `{"2":2,"1":1,"2":3}`, "[ 1 ,\n2 ]", `{"1" :1 , "2": 2}`, `{"+1":1}`, `{"1.0":1}`, `{" 1":1}`, `[-1]`, `[0,-0]`,
 		// integers that a detour through float64 would change or accept wrongly
+		// non-canonical spellings of integer member names that encoding/json accepts ("01" IS the key 1),
+		// after other members (the position of such a member in an insertion-ordered map)
+		`{"5":1,"6":2,"01":3}`, `{"2":1,"+1":2,"3":3}`, `{"1":1,"2":2,"-0":3}`, `{"10":1,"007":2,"1":3}`, `{"5":1,"05":2,"6":3}`,
+		// the limits of the sized integer types, as elements and as member names
+		`[127,-128]`, `[128]`, `[-129]`, `[255,256]`, `[18446744073709551615]`, `[18446744073709551616]`, `[9223372036854775808,0]`,
+		`{"127":1,"-128":2}`, `{"128":1}`, `{"-129":1}`, `{"255":1,"0":2}`, `{"256":1}`, `{"18446744073709551615":1,"9223372036854775808":2}`, `{"18446744073709551616":1}`,
+		`{"-9223372036854775808":1,"9223372036854775807":2}`, `{"-9223372036854775809":1}`,
 		`[9007199254740993]`, `[-9007199254740993,9007199254740992]`, `{"9007199254740993":1}`, `{"1":9007199254740993}`, `[9223372036854775807]`, `[-9223372036854775808]`, `[-9223372036854775809]`, `[1e18]`, `[1.5e1]`} {
 		add(s)
 	}
